@@ -62,6 +62,15 @@ impl State {
         for input_param in parameters {
             let param = self.eval_parameter_arg(input_param);
             let param = self.substitute_global_mem_address(param, global_memory);
+            // Parameters given as sub-register expressions (e.g. the lower 4 bytes of a register for `int` parameters)
+            // lose the IDs of the register during evaluation. So we collect the IDs of the input registers explicitly.
+            if let Arg::Register { expr, .. } = input_param {
+                for input_var in expr.input_vars() {
+                    for id in self.get_register(input_var).get_relative_values().keys() {
+                        input_ids.insert(id.clone());
+                    }
+                }
+            }
             for (id, offset) in param.get_relative_values() {
                 input_ids.insert(id.clone());
                 // If the relative value points to the stack we also have to collect all IDs contained in the pointed-to value.
